@@ -695,3 +695,103 @@ VARIANTS += [
       edits=_adapter(post_stmt="\tif len(wholeChain) > 3 && v.revocationClient != nil {\n\t\tcertResults, err = clientAsValidator{inner: v.revocationClient}.ValidateContext(ctx, revocation.ValidateContextOptions{CertChain: wholeChain[:1]})\n\t}\n"),
       why='the adapter method has a second, static, call site that passes a truncated chain'),
 ]
+
+# class O: the caller's revocation options reach the verifier (seeded C05-6: the deprecated NewWithOptions builds the
+# options it forwards as an explicit literal and forgets RevocationCodeSigningValidator; setRevocation installs the
+# default validator and the caller's one is never consulted). constructor/options-forwarded/<fn>: a function that was
+# handed the caller's options struct passes, in every field the two verifier fields are fed from, its own parameter's
+# value of that field.
+_NW_BODY = "\topts.OCITrustPolicy = ociTrustPolicy\n\topts.PluginManager = pluginManager\n\treturn NewVerifierWithOptions(trustStore, opts)\n"
+_NEW_BODY = "\treturn NewVerifierWithOptions(trustStore, VerifierOptions{\n\t\tOCITrustPolicy: ociTrustPolicy,\n\t\tPluginManager:  pluginManager,\n\t})\n"
+_SR_CALL = "\tif err := v.setRevocation(verifierOptions); err != nil {\n"
+_SR_SIG = "func (v *verifier) setRevocation(verifierOptions VerifierOptions) error {\n"
+_SR_HEAD = _SR_SIG + "\t// timestamping validator\n\trevocationTimestampingValidator := verifierOptions.RevocationTimestampingValidator\n"
+_SR_CS = "\trevocationCodeSigningValidator := verifierOptions.RevocationCodeSigningValidator\n"
+_SR_CL = "\trevocationClient := verifierOptions.RevocationClient\n"
+
+def _lit(fields, indent='\t\t'):
+    w = max(len(k) for k, _ in fields) + 1
+    return ''.join('%s%s%s %s,\n' % (indent, k + ':', ' ' * (w - len(k) - 1), v) for k, v in fields)
+
+_ALL = [('OCITrustPolicy', 'ociTrustPolicy'), ('BlobTrustPolicy', 'opts.BlobTrustPolicy'), ('PluginManager', 'pluginManager'),
+        ('RevocationClient', 'opts.RevocationClient'), ('RevocationCodeSigningValidator', 'opts.RevocationCodeSigningValidator'),
+        ('RevocationTimestampingValidator', 'opts.RevocationTimestampingValidator')]
+
+def _nw_literal(drop=(), swap=None):
+    fs = [(k, (swap or {}).get(k, v)) for k, v in _ALL if k not in drop]
+    return "\treturn NewVerifierWithOptions(trustStore, VerifierOptions{\n" + _lit(fs) + "\t})\n"
+
+def _nw_local(drop=()):
+    return ("\tvar forwarded VerifierOptions\n" + ''.join("\tforwarded.%s = %s\n" % (k, v) for k, v in _ALL if k not in drop) +
+            "\treturn NewVerifierWithOptions(trustStore, forwarded)\n")
+
+def _nw_helper(drop=()):
+    # the literal is built by a helper from the caller's options and the positional arguments
+    return [(V, _NW_BODY, "\treturn NewVerifierWithOptions(trustStore, positionalOptions(pluginManager, ociTrustPolicy, opts))\n}\n\n" +
+             "func positionalOptions(pm plugin.Manager, doc *trustpolicy.OCIDocument, given VerifierOptions) VerifierOptions {\n" +
+             "\treturn VerifierOptions{\n" + _lit([(k, v.replace('opts.', 'given.').replace('ociTrustPolicy', 'doc').replace('pluginManager', 'pm')) for k, v in _ALL if k not in drop]) + "\t}\n")]
+
+_SEPARATE = [
+    (V, _SR_HEAD, "func (v *verifier) setRevocation(revocationTimestampingValidator, codeSigning revocation.Validator, client revocation.Revocation) error {\n"),
+    (V, _SR_CS, "\trevocationCodeSigningValidator := codeSigning\n"),
+    (V, _SR_CL, "\trevocationClient := client\n"),
+]
+
+VARIANTS += [
+ # the slip, in the seed's shape and in others
+ dict(name='options-literal-forgets-context-validator', expect='flagged(constructor/options-forwarded)',
+      edits=[(V, _NW_BODY, _nw_literal(drop=('RevocationCodeSigningValidator',)))]),
+ dict(name='options-literal-forgets-context-validator-new-delegates', expect='flagged(constructor/options-forwarded)',
+      edits=[(V, _NW_BODY, _nw_literal(drop=('RevocationCodeSigningValidator',))),
+             (V, _NEW_BODY, "\treturn NewWithOptions(ociTrustPolicy, trustStore, pluginManager, VerifierOptions{})\n")]),
+ dict(name='options-literal-forgets-deprecated-client', expect='flagged(constructor/options-forwarded)',
+      edits=[(V, _NW_BODY, _nw_literal(drop=('RevocationClient',)))]),
+ dict(name='options-literal-takes-timestamping-validator-for-code-signing', expect='flagged(constructor/options-forwarded)',
+      edits=[(V, _NW_BODY, _nw_literal(swap={'RevocationCodeSigningValidator': 'opts.RevocationTimestampingValidator'}))]),
+ dict(name='options-local-filled-in-forgets-context-validator', expect='flagged(constructor/options-forwarded)',
+      edits=[(V, _NW_BODY, _nw_local(drop=('RevocationCodeSigningValidator',)))]),
+ dict(name='options-helper-literal-forgets-context-validator', expect='flagged(constructor/options-forwarded)',
+      edits=_nw_helper(drop=('RevocationCodeSigningValidator',))),
+ dict(name='options-general-ctor-hands-partial-copy-to-setter', expect='flagged(constructor/options-forwarded)',
+      edits=[(V, _SR_CALL, "\tif err := v.setRevocation(VerifierOptions{\n\t\tRevocationCodeSigningValidator:  verifierOptions.RevocationCodeSigningValidator,\n" +
+              "\t\tRevocationTimestampingValidator: verifierOptions.RevocationTimestampingValidator,\n\t}); err != nil {\n")]),
+ dict(name='options-context-validator-reset-when-client-given', expect='flagged(constructor/options-forwarded)',
+      edits=[(V, _NW_BODY, "\topts.OCITrustPolicy = ociTrustPolicy\n\topts.PluginManager = pluginManager\n\tif opts.RevocationClient != nil {\n\t\topts.RevocationCodeSigningValidator = nil\n\t}\n\treturn NewVerifierWithOptions(trustStore, opts)\n")]),
+ dict(name='options-default-installed-over-caller-validator', expect='flagged(constructor/options-forwarded)',
+      edits=[(V, _SR_CALL, "\tif verifierOptions.RevocationClient == nil {\n\t\tbuiltin, err := revocation.NewWithOptions(revocation.Options{\n\t\t\tOCSPHTTPClient:   &http.Client{Timeout: 2 * time.Second},\n" +
+              "\t\t\tCertChainPurpose: purpose.CodeSigning,\n\t\t})\n\t\tif err != nil {\n\t\t\treturn nil, err\n\t\t}\n\t\tverifierOptions.RevocationCodeSigningValidator = builtin\n\t}\n" + _SR_CALL)]),
+ dict(name='options-setter-separate-params-client-not-passed', expect='flagged(constructor/option-source)',
+      edits=_SEPARATE + [(V, _SR_CALL, "\tif err := v.setRevocation(verifierOptions.RevocationTimestampingValidator, verifierOptions.RevocationCodeSigningValidator, nil); err != nil {\n")]),
+ dict(name='options-pointer-copy-forgets-context-validator', expect='flagged(constructor/options-forwarded)',
+      edits=[(V, _SR_SIG, "func (v *verifier) setRevocation(given *VerifierOptions) error {\n\tverifierOptions := *given\n"),
+             (V, _SR_CALL, "\tpartial := VerifierOptions{RevocationClient: verifierOptions.RevocationClient, RevocationTimestampingValidator: verifierOptions.RevocationTimestampingValidator}\n\tif err := v.setRevocation(&partial); err != nil {\n")]),
+ # behaviour-preserving shapes of the same code
+ dict(name='benign-options-literal-complete', expect='silent', edits=[(V, _NW_BODY, _nw_literal())],
+      why='the benign twin of seeded C05-6: the literal copies every revocation field from the caller\'s options'),
+ dict(name='benign-options-literal-complete-new-delegates', expect='silent',
+      edits=[(V, _NW_BODY, _nw_literal()), (V, _NEW_BODY, "\treturn NewWithOptions(ociTrustPolicy, trustStore, pluginManager, VerifierOptions{})\n")],
+      why='New has no options of a caller to hand on: the empty options it passes are its own configuration'),
+ dict(name='benign-options-local-filled-in-field-by-field', expect='silent', edits=[(V, _NW_BODY, _nw_local())],
+      why='every revocation field of the local is stored from the same field of the parameter before the call'),
+ dict(name='benign-options-literal-then-copy-assigned', expect='silent',
+      edits=[(V, _NW_BODY, "\tforwarded := VerifierOptions{OCITrustPolicy: ociTrustPolicy, PluginManager: pluginManager}\n\tforwarded.BlobTrustPolicy = opts.BlobTrustPolicy\n" +
+              "\tforwarded.RevocationClient = opts.RevocationClient\n\tforwarded.RevocationCodeSigningValidator = opts.RevocationCodeSigningValidator\n" +
+              "\tforwarded.RevocationTimestampingValidator = opts.RevocationTimestampingValidator\n\treturn NewVerifierWithOptions(trustStore, forwarded)\n")],
+      why='the zero value the literal leaves in the revocation fields is overwritten on every path to the call'),
+ dict(name='benign-options-built-by-helper', expect='silent', edits=_nw_helper(),
+      why='the helper is followed with the arguments of the call: its literal copies the revocation fields of what it is given'),
+ dict(name='benign-options-setter-takes-pointer', expect='silent',
+      edits=[(V, _SR_SIG, "func (v *verifier) setRevocation(given *VerifierOptions) error {\n\tverifierOptions := *given\n"),
+             (V, _SR_CALL, "\tif err := v.setRevocation(&verifierOptions); err != nil {\n")],
+      why='the address of the parameter\'s own cell is handed on: the cell holds the parameter'),
+ dict(name='benign-options-setter-separate-params', expect='silent',
+      edits=_SEPARATE + [(V, _SR_CALL, "\tif err := v.setRevocation(verifierOptions.RevocationTimestampingValidator, verifierOptions.RevocationCodeSigningValidator, verifierOptions.RevocationClient); err != nil {\n")],
+      why='the slice from the verifier fields goes through the setter\'s parameters to the fields read in the general constructor'),
+ dict(name='benign-options-default-filled-in-by-general-ctor', expect='silent',
+      edits=[(V, _SR_CALL, "\tif verifierOptions.RevocationCodeSigningValidator == nil && verifierOptions.RevocationClient == nil {\n\t\tbuiltin, err := revocation.NewWithOptions(revocation.Options{\n\t\t\tOCSPHTTPClient:   &http.Client{Timeout: 2 * time.Second},\n" +
+              "\t\t\tCertChainPurpose: purpose.CodeSigning,\n\t\t})\n\t\tif err != nil {\n\t\t\treturn nil, err\n\t\t}\n\t\tverifierOptions.RevocationCodeSigningValidator = builtin\n\t}\n" + _SR_CALL)],
+      why='the default is stored only where the caller\'s validator was found nil'),
+ dict(name='benign-options-copied-to-local-first', expect='silent',
+      edits=[(V, _NW_BODY, "\tforwarded := opts\n\tforwarded.OCITrustPolicy, forwarded.PluginManager = ociTrustPolicy, pluginManager\n\treturn NewVerifierWithOptions(trustStore, forwarded)\n")],
+      why='a whole copy of the parameter with two other fields overridden by positional parameters'),
+]
